@@ -13,8 +13,12 @@ Proof. intros H. eapply step_silent; [eassumption|reflexivity]. Qed.
 (* ================================================================== shape stability
    In every state any history reaches (ANY table, ANY store, ANY events with any values):
    an option whose declared type is a list type holds a TRACKED list. *)
+(* the two onion-service lists txtorcon keeps in `config` are not Tor options *)
+Definition special (k : bytes) : bool :=
+  beqb k (bs "EphemeralOnionServices") || beqb k (bs "DetachedOnionServices").
+
 Definition list_typed (st : mst) (k : bytes) : Prop :=
-  exists pk vk, dget k (m_parsers st) = Some (pk, vk, true).
+  special k = false /\ exists pk vk, dget k (m_parsers st) = Some (pk, vk, true).
 
 Definition parsers_known (st : mst) : Prop :=
   forall k ty, dget k (m_parsers st) = Some ty -> In ty (map snd config_types).
@@ -128,12 +132,11 @@ Proof.
   destruct (m_getattr st name) as [[[sg rn] g]|k|] eqn:EG; [|inversion E; subst; assumption|discriminate].
   destruct (tracked_getattr _ _ _ _ _ Hinv EG) as [Hsg Hg].
   destruct g as [[a|w l]|[ds|dl]]; try discriminate; try (inversion E; subst; assumption).
-  destruct w; cbn [negb] in E; [|discriminate].
   destruct (negb on_modify_before_op); [discriminate|].
   pose proof (Hg _ eq_refl) as Hc.
-  destruct (if is_wrapped o then mark_unsaved sg rn else Ok sg) as [s2|k|] eqn:EM; cbn [bind] in E; try discriminate.
+  destruct (if w && is_wrapped o then mark_unsaved sg rn else Ok sg) as [s2|k|] eqn:EM; cbn [bind] in E; try discriminate.
   assert (tracked_inv s2 /\ m_config s2 = m_config sg) as [Hs2 Hcfg].
-  { destruct (is_wrapped o); [eapply tracked_mark_unsaved; eassumption|inversion EM; subst; auto]. }
+  { destruct (w && is_wrapped o); [eapply tracked_mark_unsaved; eassumption|inversion EM; subst; auto]. }
   destruct (py_list_op o l) as [l'|k]; inversion E; subst; [|assumption].
   eapply tracked_with_config_same; [assumption|]. rewrite Hcfg. exact Hc.
 Qed.
@@ -166,17 +169,17 @@ Proof.
               save_loop st1 rest acc1 = Ok (st', args) -> tracked_inv st' /\ m_parsers st' = m_parsers st) as Hgo.
     { intros st1 H1 HP1 acc1 Hl.
       destruct (IH st1 acc1 st' args H1) as [Ha Hb]; [|exact Hl|split; [exact Ha|congruence]].
-      intros k w l Hin [pk [vk Hlt]]. apply (Hit k w l (or_intror Hin)). exists pk, vk. now rewrite <- HP1. }
+      intros k w l Hin [Hsp [pk [vk Hlt]]]. apply (Hit k w l (or_intror Hin)). split; [assumption|]. exists pk, vk. now rewrite <- HP1. }
     destruct value as [a|w l].
     + rewrite Hrn in H.
       destruct (dget key (m_parsers st)) as [[[pk vk] il]|] eqn:EP.
       * destruct (parse pk (PAtom a)) as [pv|e|] eqn:EPa; cbn [bind] in H; try discriminate.
         match type of H with save_loop ?s _ _ = _ => refine (Hgo s _ eq_refl _ H) end. apply tracked_set_config; [assumption|].
-        intros [pk' [vk' Hp]]. rewrite EP in Hp. inversion Hp. subst pk' vk' il.
+        intros [Hsp [pk' [vk' Hp]]]. rewrite EP in Hp. inversion Hp. subst pk' vk' il.
         destruct Hinv as [HP _].
         destruct (parse_list_kind pk _ _ (known_list_kind pk vk (HP _ _ EP)) EPa) as [l Hl]. subst pv. cbn. eauto.
       * match type of H with save_loop ?s _ _ = _ => refine (Hgo s _ eq_refl _ H) end. apply tracked_set_config; [assumption|].
-        intros [pk' [vk' Hp]]. rewrite EP in Hp. discriminate.
+        intros [Hsp [pk' [vk' Hp]]]. rewrite EP in Hp. discriminate.
     + destruct (existsb (fun x => match x with AStr s => beqb s DEFAULT_VALUE | _ => false end) l); [discriminate|].
       match type of H with save_loop ?s _ _ = _ => refine (Hgo s _ eq_refl _ H) end.
       destruct Hinv as [HP [HC HU]]. split; [exact HP|]. split; cbn [m_config m_unsaved m_parsers].
@@ -211,13 +214,13 @@ Proof.
     destruct (dget (find_real_name st k) (m_parsers st)) as [[[pk vk] il]|] eqn:EP.
     + match type of E with (match ?r with _ => _ end) = _ => destruct r as [cv|k'|] eqn:ER end.
       * inversion E. apply tracked_set_config; [assumption|].
-        intros [pk' [vk' Hp]]. rewrite EP in Hp. inversion Hp. subst pk' vk' il.
+        intros [Hsp [pk' [vk' Hp]]]. rewrite EP in Hp. inversion Hp. subst pk' vk' il.
         destruct (parse pk (pyval_of_kw v0)) as [parsed|e|]; cbn [bind] in ER; try discriminate.
         destruct parsed as [a|l]; [discriminate|]. inversion ER. eauto.
       * destruct ((k' =? E_Value) || (k' =? E_Type)); inversion E. subst. assumption.
       * discriminate.
     + inversion E. apply tracked_set_config; [assumption|].
-      intros [pk' [vk' Hp]]. rewrite EP in Hp. discriminate.
+      intros [Hsp [pk' [vk' Hp]]]. rewrite EP in Hp. discriminate.
 Qed.
 
 Lemma tracked_step names st o st' ob : m_step names st o = Some (st', ob) -> tracked_inv st -> tracked_inv st'.
@@ -240,14 +243,198 @@ Proof.
     unfold m_socks in E.
     destruct (m_getattr st (bs "SocksPort")) as [[[sg rn] g]|k|] eqn:EG; [|inversion E; subst; assumption|discriminate].
     destruct (tracked_getattr _ _ _ _ _ Hinv EG) as [Hsg _].
-    destruct g as [[a|w [|[line|z|b|t] l]]|d]; try discriminate; try (inversion E; subst; assumption).
-    destruct (prefixb (bs "unix:") line); [inversion E; subst; assumption|].
-    destruct (existsb (fun c => is_space c && negb (Ascii.eqb c SP)) line); [discriminate|].
-    match type of E with (if ?c then _ else _) = _ => destruct c end.
-    + destruct (split_on COLON _) as [|h rest]; [discriminate|].
-      destruct (str_int _) as [[|p|p]|k|]; inversion E; subst; assumption.
-    + destruct (str_int _) as [[|p|p]|k|]; inversion E; subst; assumption.
+    destruct g as [[[[|c0 s0]|z0|b0|t0]|w [|x l]]|[[|c0 s0]|[|x l]]]; try discriminate; try (inversion E; subst; assumption);
+      match type of E with option_map _ ?r = _ => destruct r as [r0|]; cbn [option_map] in E; inversion E; subst; assumption end.
 Qed.
 
 Lemma reaches_tracked names st ops st' : reaches names st ops st' -> tracked_inv st -> tracked_inv st'.
 Proof. induction 1; intros Hinv; [assumption|]. apply IHreaches. eapply tracked_step; eassumption. Qed.
+
+(* ---- bootstrap establishes the invariant, for ANY table / store / defaults ---- *)
+Lemma lookup_type_known tyname ty : lookup_type tyname = Some ty -> In ty (map snd config_types).
+Proof.
+  unfold lookup_type.
+  assert (forall l acc, (forall t, acc = Some t -> In t (map snd config_types)) -> incl l config_types ->
+            forall t, fold_left (fun a (e : string * tyinfo) => if beqb (bs (fst e)) tyname then Some (snd e) else a) l acc = Some t ->
+                      In t (map snd config_types)) as H.
+  { induction l as [|e l IH]; intros acc Hacc Hincl t; cbn [fold_left].
+    - apply Hacc.
+    - apply IH.
+      + intros t0. match goal with |- context [if ?c then _ else _] => destruct c end; [|exact (Hacc t0)].
+        intros E. inversion E. apply in_map. apply Hincl. now left.
+      + intros x Hx. apply Hincl. now right. }
+  apply (H config_types None); [discriminate|apply incl_refl].
+Qed.
+
+Definition boot_inv (st : mst) : Prop :=
+  parsers_known st /\
+  (forall k v, list_typed st k -> dget k (m_config st) = Some v -> exists l, v = CList true l) /\
+  m_unsaved st = [].
+
+Lemma boot_inv_tracked st : boot_inv st -> tracked_inv st.
+Proof. intros [HP [HC HU]]. split; [exact HP|]. split; [exact HC|]. rewrite HU. intros k w l []. Qed.
+
+(* one `self.parsers[rn] = ...; self.config[rn] = v` of _do_setup *)
+Lemma boot_set st rn pk vk il lp v :
+  boot_inv st -> In (pk, vk, il) (map snd config_types) -> (il = true -> exists l, v = CList true l) ->
+  boot_inv (set_config {| m_parsers := dset rn (pk, vk, il) (m_parsers st); m_listp := lp; m_defaults := m_defaults st;
+                          m_config := m_config st; m_unsaved := m_unsaved st |} rn v).
+Proof.
+  intros [HP [HC HU]] Hty Hv. split; [|split].
+  - intros k t Hk. unfold set_config in Hk. cbn [m_parsers] in Hk. destruct (list_eq_dec ascii_dec rn k) as [E|E].
+    + subst k. rewrite dget_dset_same in Hk. now inversion Hk.
+    + rewrite dget_dset_other in Hk by assumption. eapply HP; eassumption.
+  - intros k v' [Hsp [pk' [vk' Hp]]] Hc. rewrite set_config_config in Hc. cbn [m_config] in Hc.
+    unfold set_config in Hp. cbn [m_parsers] in Hp.
+    destruct (list_eq_dec ascii_dec rn k) as [E|E].
+    + subst k. rewrite dget_dset_same in Hc. rewrite dget_dset_same in Hp. inversion Hc. inversion Hp. subst. now apply Hv.
+    + rewrite dget_dset_other in Hc by assumption. rewrite dget_dset_other in Hp by assumption. apply (HC k v'); [split; [assumption|now exists pk', vk']|assumption].
+  - unfold set_config. cbn [m_unsaved]. now rewrite HU.
+Qed.
+
+Lemma boot_set_config st rn v :
+  boot_inv st -> (list_typed st rn -> exists l, v = CList true l) -> boot_inv (set_config st rn v).
+Proof.
+  intros [HP [HC HU]] Hv. split; [exact HP|split].
+  - intros k v' Hlt Hc. rewrite set_config_config in Hc. destruct (list_eq_dec ascii_dec rn k) as [E|E].
+    + subst k. rewrite dget_dset_same in Hc. inversion Hc. subst. now apply Hv.
+    + rewrite dget_dset_other in Hc by assumption. eapply HC; eassumption.
+  - unfold set_config. cbn [m_unsaved]. now rewrite HU.
+Qed.
+
+Lemma boot_setup_row store st row st1 : boot_inv st -> setup_row store st row = Ok st1 -> boot_inv st1.
+Proof.
+  intros Hinv H. unfold setup_row in H. destruct row as [name value].
+  destruct (beqb name (bs "HiddenServiceOptions")); [discriminate|].
+  match type of H with bind ?r _ = _ => destruct r as [sx|k|] eqn:E1 end; cbn [bind] in H; try discriminate.
+  unfold setup_ports in E1. unfold setup_own in H.
+  assert (boot_inv sx) as HX.
+  { destruct (suffixb PortLines_sfx name); [|inversion E1; subst; assumption].
+    destruct (lookup_type (bs "String")) as [[[spk svk] sil]|] eqn:ES; [|discriminate].
+    match type of E1 with bind ?r _ = _ => destruct r as [ini|k|] end; cbn [bind] in E1; try discriminate.
+    inversion E1. apply boot_set; [assumption|eapply lookup_type_known; eassumption|eauto]. }
+  destruct (mem_bytes value skip_types); [inversion H; subst; assumption|].
+  destruct (lookup_type (plus_to_underscore value)) as [[[pk vk] il]|] eqn:ET; [|discriminate].
+  pose proof (lookup_type_known _ _ ET) as Hty.
+  destruct il.
+  - match type of H with bind ?r _ = _ => destruct r as [parsed|k|] end; cbn [bind] in H; try discriminate.
+    destruct parsed as [a|l]; [discriminate|]. inversion H.
+    apply (boot_set sx (find_real_name sx name) pk vk true); [assumption|assumption|eauto].
+  - match type of H with bind ?r _ = _ => destruct r as [parsed|k|] end; cbn [bind] in H; try discriminate.
+    inversion H. apply (boot_set sx (find_real_name sx name) pk vk false); [assumption|assumption|discriminate].
+Qed.
+
+Lemma bootstrap_tracked i st : m_bootstrap i = Ok st -> tracked_inv st.
+Proof.
+  unfold m_bootstrap.
+  set (st0 := {| m_parsers := []; m_listp := _; m_defaults := _; m_config := []; m_unsaved := [] |}).
+  assert (boot_inv st0) as H0.
+  { split; [|split]; [intros k ty Hk; discriminate|intros k v [_ [pk [vk Hk]]]; discriminate|reflexivity]. }
+  assert (forall rows s s1, boot_inv s -> setup_rows (i_store i) s rows = Ok s1 -> boot_inv s1) as Hrows.
+  { induction rows as [|r rows IH]; intros s s1 Hs H; cbn [setup_rows] in H.
+    - inversion H. subst. assumption.
+    - destruct (setup_row (i_store i) s r) as [sx|k|] eqn:E; cbn [bind] in H; try discriminate.
+      eapply IH; [|eassumption]. eapply boot_setup_row; eassumption. }
+  destruct (setup_rows (i_store i) st0 (i_table i)) as [s1|k|] eqn:E; cbn [bind]; try discriminate.
+  intros H. inversion H. apply boot_inv_tracked.
+  pose proof (Hrows _ _ _ H0 E) as H1.
+  (* the two onion-service lists are plain lists stored under names that are not options *)
+  apply boot_set_config; [apply boot_set_config; [assumption|]|]; intros [Hsp _]; discriminate Hsp.
+Qed.
+
+(* ================================================================== read - edit - save keeps working *)
+Lemma all_ops_wrapped o : is_wrapped o = true.
+Proof. destruct o; vm_compute; reflexivity. Qed.
+
+Lemma getattr_config st name st1 rn v :
+  m_getattr st name = Ok (st1, rn, GConfig v) -> rn = find_real_name st name /\ dget rn (m_config st1) = Some v.
+Proof.
+  unfold m_getattr.
+  set (rn0 := find_real_name st name).
+  set (stx := if mem_bytes (lower rn0) (m_listp st) && negb (dmem rn0 (m_config st))
+              then with_config st (dset rn0 (CList true []) (m_config st)) else st).
+  destruct (dget rn0 (m_config stx)) as [v0|] eqn:EV; [|discriminate].
+  destruct v0 as [[s|z|b|t]|w l]; try (intros HH; inversion HH; subst; auto; fail).
+  destruct (beqb s DEFAULT_VALUE); [destruct (dget rn0 (m_defaults stx))|]; intros HH; inversion HH; subst; auto.
+Qed.
+
+(* a tracked list that a read returns, with nothing pending for it: an in-place operation that
+   Python accepts makes the option pending AS that list, and the list is the edited one *)
+Lemma edit_tracked_is_pending st k l o l' :
+  m_getattr st k = Ok (st, k, GConfig (CList true l)) ->
+  dmem k (m_unsaved st) = false ->
+  py_list_op o l = inl l' ->
+  exists st1, m_listop st k o = Ok (st1, None) /\
+    m_unsaved st1 = m_unsaved st ++ [(k, UAlias)] /\
+    m_config st1 = dset k (CList true l') (m_config st) /\
+    item_args st1 (k, UAlias) = map (fun x => (k, atom_text x)) l'.
+Proof.
+  intros HG HU HO.
+  destruct (getattr_config _ _ _ _ _ HG) as [Hrn Hc].
+  unfold m_listop. rewrite HG.
+  assert (negb on_modify_before_op = false) as -> by reflexivity.
+  rewrite all_ops_wrapped. cbn [andb]. unfold mark_unsaved. rewrite <- Hrn, beqb_refl. cbn [negb].
+  assert (dmem k (m_config st) = true) as -> by (unfold dmem; now rewrite Hc).
+  rewrite HU. cbn [andb negb bind]. rewrite HO.
+  eexists. split; [reflexivity|]. cbn [with_config with_unsaved m_unsaved m_config].
+  split; [|split].
+  - apply dset_new_app. unfold dmem in HU. destruct (dget k (m_unsaved st)); [discriminate|reflexivity].
+  - reflexivity.
+  - unfold item_args. cbn [fst snd resolve with_config m_config]. now rewrite dget_dset_same.
+Qed.
+
+(* ================================================================== witnesses of the open findings *)
+Definition p_table : list (bytes * bytes) :=
+  [(bs "SocksPort", bs "Dependent"); (bs "SocksPortLines", bs "Virtual"); (bs "__SocksPort", bs "Dependent");
+   (bs "Log", bs "LineList"); (bs "ExitNodes", bs "RouterList"); (bs "Nickname", bs "String"); (bs "NumCPUs", bs "Integer")].
+Definition p_input store defaults ops : cfg_input :=
+  {| i_table := p_table; i_store := store; i_defaults := defaults; i_ops := ops |}.
+Definition p_store : list (bytes * list bytes) :=
+  [(bs "SocksPort", [bs "9050"]); (bs "Log", [bs "notice stdout"]); (bs "Nickname", [bs "bob"]); (bs "NumCPUs", [bs "2"])].
+
+(* F1: the port list is unset and config/defaults has one line for it *)
+Definition w11_f1 := p_input [(bs "NumCPUs", [bs "2"])] (Some [(bs "SocksPort", bs "9050")]) [OpRead (bs "SocksPort")].
+(* F2: CONF_CHANGED names the port list *)
+Definition w11_f2 := p_input p_store (Some []) [OpEvent [(bs "SocksPort", Some (bs "8888"))]; OpSocks].
+(* F3: two values, then a keyword-only line *)
+Definition w11_f3 := p_input p_store (Some [])
+  [OpEvent [(bs "Log", Some (bs "info file /tmp/x")); (bs "Log", Some (bs "err stderr")); (bs "Nickname", None)]].
+(* F4: default of an unset comma list *)
+Definition w11_f4 := p_input p_store (Some [(bs "ExitNodes", bs "x,y")]) [OpRead (bs "exitnodes")].
+(* F5: edit, CONF_CHANGED for the same option, edit, save *)
+Definition w11_f5 := p_input p_store (Some [])
+  [OpListOp (bs "Log") (LAppend (AStr (bs "mine"))); OpEvent [(bs "Log", Some (bs "theirs"))];
+   OpListOp (bs "Log") (LAppend (AStr (bs "later"))); OpSave None; OpRead (bs "Log")].
+(* outside every class: defaults in use, an event with many / one / zero values, case-insensitive
+   reads, socks_endpoint(), then read - edit - save on the list the event installed *)
+Definition w11_ok := p_input p_store (Some [(bs "ExitNodes", bs "de"); (bs "Nickname", bs "Unnamed")])
+  [OpRead (bs "EXITNODES"); OpSocks;
+   OpEvent [(bs "Log", Some (bs "info file /tmp/x")); (bs "Log", Some (bs "err stderr")); (bs "NumCPUs", Some (bs "8"))];
+   OpEvent [(bs "Nickname", None); (bs "ExitNodes", Some (bs "a, b"))];
+   OpRead (bs "nickname"); OpRead (bs "log");
+   OpListOp (bs "LOG") (LAppend (AStr (bs "debug stderr"))); OpListOp (bs "exitnodes") (LPop (Some 0%Z));
+   OpNeedsSave; OpSave None; OpRead (bs "Log"); OpEvent [(bs "Log", None)]; OpRead (bs "Log")].
+
+Definition refutes11 (i : cfg_input) : Prop :=
+  c11_scope i = true /\
+  exists snap tr, model_run i = Some (true, snap, tr) /\ Spec.C11.oracle i true snap tr = false.
+
+Ltac refute := split; [split; [vm_compute; reflexivity|eexists _, _; split; vm_compute; reflexivity]|vm_compute; reflexivity].
+
+Lemma f11_1_refuted : refutes11 w11_f1 /\ portlist_bootstrap_irregular w11_f1 = true.
+Proof. refute. Qed.
+Lemma f11_2_refuted : refutes11 w11_f2 /\ portlist_conf_changed w11_f2 = true.
+Proof. refute. Qed.
+Lemma f11_3_refuted : refutes11 w11_f3 /\ conf_changed_multi_then_keyword w11_f3 = true.
+Proof. refute. Qed.
+Lemma f11_4_refuted : refutes11 w11_f4 /\ comma_default_unsplit w11_f4 = true.
+Proof. refute. Qed.
+Lemma f11_5_refuted : refutes11 w11_f5 /\ edit_while_detached w11_f5 = true.
+Proof. refute. Qed.
+
+Lemma ok11_example :
+  c11_scope w11_ok = true /\ c11_known w11_ok = false /\
+  exists snap tr, model_run w11_ok = Some (true, snap, tr) /\ Spec.C11.oracle w11_ok true snap tr = true
+    /\ concat (map o_wrote tr) = [bs "SETCONF Log=""info file /tmp/x"" Log=""err stderr"" Log=""debug stderr"" ExitNodes=b"].
+Proof. split; [vm_compute; reflexivity|]. split; [vm_compute; reflexivity|].
+       eexists _, _. split; [vm_compute; reflexivity|]. split; vm_compute; reflexivity. Qed.
